@@ -82,3 +82,63 @@ Example C03_nonvacuous :
 Proof.
   split; [exact b_ex_env_ok|]. split; [exact b_ex_cfg_ok|]. vm_compute. repeat split.
 Qed.
+
+(* ---------------------------------------------------------------- history part *)
+
+From VF Require Import Model.World Proofs.W_C11 Proofs.W_C03H.
+
+(* Along EVERY honest-browser history of the model — one browser whose cookie
+   jar changes only through the Set-Cookie headers it receives, each request
+   served by an arbitrary ready instance state — Spec/WorldSpec.c03_browser
+   holds: a callback establishes a session only with the state, nonce and (with
+   PKCE) non-empty verifier of that browser's MOST RECENT login redirect since
+   the last established session, and a callback whose state already completed a
+   login establishes nothing and contacts no token endpoint.  fresh_values of
+   the run holds too.
+   Premise rnds_fresh: the random triples the events would draw are pairwise
+   distinct and non-empty.  It is a premise on the random source: a login
+   redirect shows exactly the triple drawn for its step (C03_initiation_step),
+   so fresh_values of a model run says no more than that.  Only initiating
+   steps consume their triple, but which steps initiate is decided by the run:
+   C03_history asks it of all events, C03_history_run of the initiating steps
+   only (as fresh_values / verifiers_set of the run).  Distinct states are
+   necessary: W_C03H.C03_needs_distinct_states. *)
+Theorem C03_history :
+  forall (E : env) (cfg : config) (evs : list event),
+    env_ok E -> cfg_ok cfg -> events_ready evs ->
+    rnds_fresh (map ev_rnd evs) = true ->
+    c03_browser E cfg None [] (browser_run E cfg [] evs) = true
+    /\ fresh_values (browser_run E cfg [] evs) = true.
+Proof. exact C03_history_thm. Qed.
+Print Assumptions C03_history.
+
+Theorem C03_history_run :
+  forall (E : env) (cfg : config) (evs : list event),
+    env_ok E -> cfg_ok cfg -> events_ready evs ->
+    fresh_values (browser_run E cfg [] evs) = true ->
+    verifiers_set cfg (browser_run E cfg [] evs) = true ->
+    c03_browser E cfg None [] (browser_run E cfg [] evs) = true.
+Proof. exact C03_history_run_thm. Qed.
+Print Assumptions C03_history_run.
+
+(* Non-vacuity: a login (60, 61, 62), the same callback replayed (400, no
+   token-endpoint call, nothing established), a forwarded request, a logout, a
+   second initiation (63, 64, 65) and the old callback again (400): premises
+   and conclusion hold.  With a random source that repeats the first triple
+   the replayed callback completes the second login and the monitor fails. *)
+Example C03_history_nonvacuous :
+  let run := browser_run b_ex_env b_ex_cfg [] c3_ex_events in
+  env_ok b_ex_env /\ cfg_ok b_ex_cfg /\ events_ready c3_ex_events
+  /\ rnds_fresh (map ev_rnd c3_ex_events) = true
+  /\ c03_browser b_ex_env b_ex_cfg None [] run = true
+  /\ fresh_values run = true
+  /\ map (fun s => r_status (w_obs s)) run = [302; 302; 400; 200; 302; 302; 400]
+  /\ map (fun s => establishes b_ex_env b_ex_cfg (w_now s) (w_rq s) (w_obs s)) run
+     = [false; true; false; false; false; false; false]
+  /\ map (fun s => r_calls (w_obs s)) run = [[]; [PExchange 70 5 6 62]; []; []; []; []; []]
+  /\ rnds_fresh (map ev_rnd c3_repeat_events) = false
+  /\ c03_browser b_ex_env b_ex_cfg None [] (browser_run b_ex_env b_ex_cfg [] c3_repeat_events) = false.
+Proof.
+  split; [exact b_ex_env_ok|]. split; [exact b_ex_cfg_ok|]. split; [exact c3_ex_ready|].
+  vm_compute. repeat split.
+Qed.
